@@ -148,3 +148,83 @@ Print Assumptions C05_tostr_from_source.
 Theorem C05_tostr_other_kinds : forall v, scalar v = false -> run_tostr fn_ToStr v = Some opaque_echo.
 Proof. exact tostr_other. Qed.
 Print Assumptions C05_tostr_other_kinds.
+
+(* The string rule functions Phone, Email, IDCard, Ip, Ipv4, Ipv6, Year, Year2Month, Date, Prefix, Suffix
+   (valid/validfn.go) and CheckFieldIsStr (valid/common.go): their go/ast syntax trees, regenerated on every run, under
+   the semantics of Model/GoRule.v (a call means the callee's model; the three regular expressions are the translated
+   patterns; net.ParseIP and time.Parse are the oracle tables; GetTimeFmt is get_time_fmt) write, for EVERY rule text,
+   names and value of any kind, exactly the text of Proofs/GoFmtProofs.v: the kind error for a non-string, nothing for
+   a member of the language, else the custom message alone or the default wording — with the right recogniser, the
+   right IP family test, the right layout mask and separator for each rule.  A change that swaps a recogniser, a mask
+   or a branch in any of them makes this proof fail. *)
+From PGV Require Import Extracted.SourceFnsFmt Model.GoRule Proofs.GoFmtProofs.
+Theorem C05_string_rules_from_source : forall (orc : oracles) (U : val -> str) (FE : str -> str -> ftext -> str) (ST : str -> str) vn obj field v,
+  run_rule orc U FE ST fn_Phone vn obj field v = Some (str_text (s2b "it is not phone") (match_string (pats PhoneRe)) vn obj field v) /\
+  run_rule orc U FE ST fn_Email vn obj field v = Some (str_text (s2b "it is not email") (match_string (pats EmailRe)) vn obj field v) /\
+  run_rule orc U FE ST fn_IDCard vn obj field v = Some (str_text (s2b "it is not idcard") (match_string (pats IdCardRe)) vn obj field v) /\
+  run_rule orc U FE ST fn_Ip vn obj field v = Some (str_text (s2b "it is not ip") (fun s => fst (ip_lookup orc s)) vn obj field v) /\
+  run_rule orc U FE ST fn_Ipv4 vn obj field v =
+    Some (str_text (s2b "it is not ipv4") (fun s => fst (ip_lookup orc s) && snd (ip_lookup orc s)) vn obj field v) /\
+  run_rule orc U FE ST fn_Ipv6 vn obj field v =
+    Some (str_text (s2b "it is not ipv6") (fun s => fst (ip_lookup orc s) && negb (snd (ip_lookup orc s))) vn obj field v) /\
+  run_rule orc U FE ST fn_Year vn obj field v =
+    Some (str_text (s2b "it is not year, eg: 1996") (time_ok orc (get_time_fmt 1 [])) vn obj field v) /\
+  run_rule orc U FE ST fn_Year2Month vn obj field v =
+    Some (str_text (s2b "it is not year2month, eg: 1996" ++ date_split vn ++ s2b "09")
+                   (time_ok orc (get_time_fmt 3 [date_split vn])) vn obj field v) /\
+  run_rule orc U FE ST fn_Date vn obj field v =
+    Some (str_text (s2b "it is not date, eg: 1996" ++ date_split vn ++ s2b "09" ++ date_split vn ++ s2b "28")
+                   (time_ok orc (get_time_fmt 7 [date_split vn])) vn obj field v) /\
+  run_rule orc U FE ST fn_Prefix vn obj field v =
+    Some (str_text (s2b "prefix is not ok") (fun s => has_prefix s (trim [QUOTE] (pk_val vn))) vn obj field v) /\
+  run_rule orc U FE ST fn_Suffix vn obj field v =
+    Some (str_text (s2b "suffix is not ok") (fun s => has_suffix s (trim [QUOTE] (pk_val vn))) vn obj field v).
+Proof. exact str_rules_from_source. Qed.
+Print Assumptions C05_string_rules_from_source.
+
+(* ... and they write nothing exactly when the model's rule function (the one the language theorems above judge)
+   reports no clause: the verdict of the model IS the verdict of the source text *)
+Theorem C05_string_rules_verdict_from_source :
+  forall (orc : oracles) (U : val -> str) (FE : str -> str -> ftext -> str) (ST : str -> str) vn obj field v,
+  (run_rule orc U FE ST fn_Phone vn obj field v = Some [] <-> rPhone vn obj field v = []) /\
+  (run_rule orc U FE ST fn_Email vn obj field v = Some [] <-> rEmail vn obj field v = []) /\
+  (run_rule orc U FE ST fn_IDCard vn obj field v = Some [] <-> rIDCard vn obj field v = []) /\
+  (run_rule orc U FE ST fn_Ip vn obj field v = Some [] <-> rIp orc vn obj field v = []) /\
+  (run_rule orc U FE ST fn_Ipv4 vn obj field v = Some [] <-> rIpv4 orc vn obj field v = []) /\
+  (run_rule orc U FE ST fn_Ipv6 vn obj field v = Some [] <-> rIpv6 orc vn obj field v = []) /\
+  (run_rule orc U FE ST fn_Year vn obj field v = Some [] <-> rYear orc vn obj field v = []) /\
+  (run_rule orc U FE ST fn_Year2Month vn obj field v = Some [] <-> rYear2Month orc vn obj field v = []) /\
+  (run_rule orc U FE ST fn_Date vn obj field v = Some [] <-> rDate orc vn obj field v = []) /\
+  (run_rule orc U FE ST fn_Prefix vn obj field v = Some [] <-> rPrefix vn obj field v = []) /\
+  (run_rule orc U FE ST fn_Suffix vn obj field v = Some [] <-> rSuffix vn obj field v = []).
+Proof. exact str_rules_write_iff_clause. Qed.
+Print Assumptions C05_string_rules_verdict_from_source.
+
+Theorem C05_check_str_from_source : forall (orc : oracles) obj field v,
+  run_check_str orc fn_CheckFieldIsStr obj field v = Some (check_str_err obj field v).
+Proof. exact check_str_from_source. Qed.
+Print Assumptions C05_check_str_from_source.
+
+(* Likewise Int, Float, Json, File and Dir: the kind dispatch (a string is matched against IntRe / FloatRe, an integer
+   kind passes int, only a float kind passes float, everything else is echoed through ToStr), json.Valid and os.Stat
+   through the oracle tables, the 256-byte cut and StrEscape of the json echo, and — after the repair a7bad91 — the
+   custom message, else os.Stat's own text (ST, abstract), for a path that cannot be read. *)
+Theorem C05_content_rules_from_source :
+  forall (orc : oracles) (U : val -> str) (FE : str -> str -> ftext -> str) (ST : str -> str) vn obj field v,
+  run_rule orc U FE ST fn_Int vn obj field v = Some (int_text vn obj field v) /\
+  run_rule orc U FE ST fn_Float vn obj field v = Some (float_text vn obj field v) /\
+  run_rule orc U FE ST fn_Json vn obj field v = Some (json_text orc vn obj field v) /\
+  run_rule orc U FE ST fn_File vn obj field v = Some (file_text orc ST false vn obj field v) /\
+  run_rule orc U FE ST fn_Dir vn obj field v = Some (file_text orc ST true vn obj field v).
+Proof. exact content_rules_from_source. Qed.
+Print Assumptions C05_content_rules_from_source.
+
+Theorem C05_content_rules_verdict_from_source :
+  forall (orc : oracles) (U : val -> str) (FE : str -> str -> ftext -> str) (ST : str -> str) vn obj field v,
+  (run_rule orc U FE ST fn_Int vn obj field v = Some [] <-> rInt vn obj field v = []) /\
+  (run_rule orc U FE ST fn_Float vn obj field v = Some [] <-> rFloat vn obj field v = []) /\
+  (run_rule orc U FE ST fn_Json vn obj field v = Some [] <-> rJson orc vn obj field v = []) /\
+  (run_rule orc U FE ST fn_File vn obj field v = Some [] <-> rFile orc vn obj field v = []) /\
+  (run_rule orc U FE ST fn_Dir vn obj field v = Some [] <-> rDir orc vn obj field v = []).
+Proof. exact content_rules_write_iff_clause. Qed.
+Print Assumptions C05_content_rules_verdict_from_source.
